@@ -274,6 +274,7 @@ def argument_round_trip(ctx, chk):
                 else:
                     sent = f"start: jmp {text}\n"
                 ctxs.append((label, p, text, sent))
+    number_argument_value(ctx, chk, GA, E)
     res = parse_lines(ctx.facts.gram_path("preprocessor"), [c[3] for c in ctxs]) if ctxs else []
     seen = set()
     for (label, p, text, sent), r in zip(ctxs, res):
@@ -292,3 +293,67 @@ def argument_round_trip(ctx, chk):
                           f"{label}: the argument is substituted as `{text}` (the emitted spelling), which the assembler grammar does not accept inside the expansion "
                           f"(stops at `{tok}`): a macro used with this kind of argument is rejected although the hand-expanded instruction is legal",
                           f"{GA.g['file']}:{p['line']}", witness=f"macro ld(a) -> mov al, a <- ; ld({text.replace(':', '')})")
+
+
+def number_argument_value(ctx, chk, GA, E):
+    """C13.R7 (numbers): a bare number argument is substituted as the Display of the value of its nonterminal.  If that
+    nonterminal is of a signed type and takes unsigned literals through a cast (`<n:u_word_num> => n as i16`), a literal
+    with the top bit set is re-spelled as a negative number.  That is a defect exactly when some position that accepts
+    the literal as written rejects the negative spelling: decided by parsing, for the contexts below, the sentence with
+    2^(w-1) (control: must be accepted) and with -2^(w-1)."""
+    from astev import Str, hinfo
+    from lang import parse_lines
+    import mir as M
+    for k, p in enumerate(GA.productions("general_string")):
+        label = GA.prod_label("general_string", k)
+        nts_ = [s_["name"] for s_ in p["symbols"] if s_["t"] == "nt"]
+        tys = set()
+        for q in E.prod_paths("general_string", k):
+            if isinstance(q.ret, Str):
+                for t in q.ret.t:
+                    if len(t) == 1 and t[0][0] == "hole" and t[0][1] == "num":
+                        tys.add(hinfo(t[0]).get("ty"))
+        if not tys or len(nts_) != 1:
+            continue
+        ty = sorted(tys)[0]
+        it = M.int_type(ty or "")
+        if len(tys) != 1 or not it:
+            chk.undecided_("C13.R7", f"{label}:value", f"type of the number argument not unique: {sorted(map(str, tys))}")
+            continue
+        width, signed = it[0], (ty or "").startswith("i")
+        if not signed:
+            chk.ok("C13.R7", f"{label}:value", f"a number argument is substituted as the decimal spelling of a {ty}: same value wherever a number is accepted")
+            continue
+        # does the signed nonterminal take unsigned literals through a cast?
+        via = None
+        todo, seen_ = [nts_[0]], set()
+        while todo:
+            n = todo.pop()
+            if n in seen_ or n not in GA.nts:
+                continue
+            seen_.add(n)
+            for pp in GA.productions(n):
+                inner = [s_["name"] for s_ in pp["symbols"] if s_["t"] == "nt"]
+                if len(inner) == 1 and not any(s_["t"] == "term" for s_ in pp["symbols"]):
+                    ity = M.int_type((GA.nts.get(inner[0], {}).get("type") or ""))
+                    if ity and (GA.nts[inner[0]]["type"] or "").startswith("u") and ity[0] >= width:
+                        via = inner[0]
+                    else:
+                        todo.append(inner[0])
+        if via is None:
+            chk.ok("C13.R7", f"{label}:value", f"signed number argument ({ty}); no unsigned literal reaches it through a cast")
+            continue
+        hi, lo = 1 << (width - 1), -(1 << (width - 1))
+        forms = ["start: and ax, {}\n", "start: mov word [{}], ax\n", "start: test ax, {}\n"] if width == 16 else ["start: and al, {}\n", "start: test al, {}\n"]
+        lines = [f.format(v) for f in forms for v in (hi, lo)]
+        res = parse_lines(ctx.facts.gram_path("preprocessor"), lines)
+        bad = [forms[i] for i in range(len(forms)) if res[2 * i]["ok"] and not res[2 * i + 1]["ok"]]
+        if bad:
+            chk.violation("C13.R7", label, f"number-argument-respelled-signed:{ty}",
+                          f"{label}: a number argument is substituted as the Display of a {ty} that `{via}` literals reach through a cast: {hi} (0x{hi:X}) becomes `{lo}`, "
+                          f"which `{bad[0].strip().format('<n>')}` does not accept although it accepts the literal as written: the macro use is rejected where its hand expansion is legal",
+                          f"{GA.g['file']}:{p['line']}", witness=f"macro m(v) -> {bad[0].strip().split(': ')[1].format('v')} <- ; m(0x{hi:X})")
+        elif any(res[2 * i]["ok"] for i in range(len(forms))):
+            chk.ok("C13.R7", f"{label}:value", f"the negative spelling of {hi} is accepted wherever the literal is (contexts tried: {len(forms)})")
+        else:
+            chk.undecided_("C13.R7", f"{label}:value", "none of the control sentences is accepted by the assembler grammar")
